@@ -36,9 +36,11 @@ func (g *FuncGen) execStmt(s ast.Stmt, st *State) Flow {
 		return g.execBlock(x.List, st)
 	case *ast.ExprStmt:
 		g.evMulti(x.X, st)
+		g.proofSteps(x, st)
 		return Flow{next: st}
 	case *ast.AssignStmt:
 		g.execAssign(x, st)
+		g.proofSteps(x, st)
 		return Flow{next: st}
 	case *ast.DeclStmt:
 		gd, ok := x.Decl.(*ast.GenDecl)
@@ -62,9 +64,12 @@ func (g *FuncGen) execStmt(s ast.Stmt, st *State) Flow {
 						// denote it (the models of the library's methods work on such handles)
 						h := g.allocOpaque(st, o.Type())
 						st.vars[o] = Val{h.T, o.Type(), s}
+						if strings.HasSuffix(o.Type().String(), "strings.Builder") {
+							g.ghostSet(st, "$sb", fmt.Sprintf("(store %s %s bempty)", g.ghostGet(st, "$sb"), h.T))
+						}
 						continue
 					}
-					st.vars[o] = Val{zeroOf(s), o.Type(), s}
+					st.vars[o] = Val{zeroOfType(o.Type()), o.Type(), s}
 				}
 			} else if len(vs.Values) == len(vs.Names) {
 				for i, n := range vs.Names {
@@ -561,6 +566,14 @@ func (g *FuncGen) scanCallWrites(c *ast.CallExpr, ws *writeSet) {
 		if name == "sort.Slice" && len(c.Args) > 0 {
 			g.scanLhs(c.Args[0], ws)
 		}
+		// a read fills its buffer: "buf" or "arr[:]"
+		if strings.HasSuffix(name, ".Read") || name == "io.ReadFull" || name == "io.ReadAtLeast" {
+			for _, a := range c.Args {
+				if id := bufferVar(a); id != nil {
+					g.scanLhs(id, ws)
+				}
+			}
+		}
 		for _, k := range libEffectKeys(name) {
 			ws.fields[k] = true
 		}
@@ -888,6 +901,21 @@ func (g *FuncGen) execFor(x *ast.ForStmt, st *State) Flow {
 		g.assume(head, f)
 	}
 	dec0 := g.decValues(head, ls, bodyPos, itOf(head))
+	// a counting loop without a stated measure has the obvious one, bound - counter, checked like a stated one
+	autoDec := func(s *State) string {
+		if ivObj == nil || s == nil || (ls != nil && ls.Decreases != nil) {
+			return ""
+		}
+		iv, ok := s.vars[ivObj]
+		if !ok {
+			return ""
+		}
+		g.quiet++
+		n := g.ev(ivBound, s)
+		g.quiet--
+		return fmt.Sprintf("(- %s %s)", n.T, iv.T)
+	}
+	autoDec0 := autoDec(head)
 	// 3. condition
 	var bodySt, exitSt *State
 	if x.Cond != nil {
@@ -915,8 +943,11 @@ func (g *FuncGen) execFor(x *ast.ForStmt, st *State) Flow {
 			dec1 := g.decValues(back, ls, bodyPos, itOf(back))
 			g.oblige(back, fmt.Sprintf("dec/loop%d", ord), "", ls.Decreases.Tags, lexLess(dec1, dec0), x.Pos(), "decreases "+ls.Decreases.Src)
 		}
+		if d1 := autoDec(back); autoDec0 != "" && d1 != "" && g.F.Spec != nil && g.F.Spec.Decr != nil && len(g.inlineStack) == 0 {
+			g.oblige(back, fmt.Sprintf("dec/loop%d", ord), "counter", g.F.Spec.Decr.Tags, fmt.Sprintf("(and (>= %s 0) (< %s %s))", d1, d1, autoDec0), x.Pos(), "bound - counter decreases (counting loop)")
+		}
 	}
-	if ls == nil || ls.Decreases == nil {
+	if (ls == nil || ls.Decreases == nil) && autoDec0 == "" {
 		g.notes = append(g.notes, fmt.Sprintf("termination of loop %d in %s not proved (no decreases clause)", ord, g.F.Key))
 		// a function whose contract claims termination (a function-level decreases clause) has a measure for every
 		// for-loop it contains; a loop added without one is an open termination obligation
@@ -1245,4 +1276,45 @@ func (g *FuncGen) ioLoopKeep(back *State, ord int, pos token.Pos) {
 	}
 	g.oblige(back, fmt.Sprintf("iofail-keep/loop%d", ord), "", nil, fmt.Sprintf("(=> %s %s)", g.ghostGet(back, "$iofail"), e), pos,
 		"no failed file-system modification is pending when the loop goes round again")
+}
+
+// proofSteps: "after <callee>[#k]: assert e" clauses of the function's contract whose call this statement holds are
+// checked in the state after the statement and then available to everything that follows (a cut: the rest of the
+// function is proved from the asserted fact, the fact from what precedes it).
+func (g *FuncGen) proofSteps(s ast.Stmt, st *State) {
+	if st == nil || len(g.inlineStack) > 0 || g.F.Spec == nil || len(g.F.Spec.Asserts) == 0 {
+		return
+	}
+	var names []string
+	ast.Inspect(s, func(n ast.Node) bool {
+		switch c := n.(type) {
+		case *ast.FuncLit:
+			return false
+		case *ast.CallExpr:
+			if fn := g.calleeFunc(c); fn != nil {
+				names = append(names, fn.Name())
+			}
+		}
+		return true
+	})
+	for _, name := range names {
+		if g.afterCount == nil {
+			g.afterCount = map[string]int{}
+		}
+		k := g.afterCount[name]
+		g.afterCount[name]++
+		for _, a := range g.F.Spec.Asserts {
+			if a.Callee != name || a.Ord != k {
+				continue
+			}
+			env := g.invEnv(st, s.End()-1, nil)
+			t := env.evalBool(a.Clause.Expr)
+			label := a.Clause.Label
+			if label == "" {
+				label = fmt.Sprintf("%s#%d", name, k)
+			}
+			g.oblige(st, "assert", label, a.Clause.Tags, t, s.Pos(), a.Clause.Src)
+			g.assume(st, t)
+		}
+	}
 }
